@@ -25,6 +25,11 @@ def tie(ctx):
 
 def gen(rng):
     r = rng.random()
+    if 0.54 <= r < 0.6:
+        # gas with heat losses in a thermal mode, pipes declared against the flow: the gas post-processing twins
+        s = netgen.gen_gas_heat_tree(rng)
+        s["c07"] = {"variant": "engine", "scale": 1.0}
+        return s
     if r < 0.6:
         s = netgen.gen_hydraulic(rng)
     elif r < 0.8:
